@@ -12,13 +12,13 @@
       + Σ over `append` sites 8·elemSize · Π hi(enclosing loop counts),
     where hi(n) is the upper limit the dominating guards establish for the count `n`.
     It does not depend on the input (so the `c·|input|` term of the design is 0 here); for NESTED
-    decoders (Polygon → Loop) it multiplies the limits, see DELIVER.md "not finished".
+    decoders (Polygon → Loop) it multiplies the limits.
   * `guarded_total`: with a cap of at least `allocBound p` the outcome is `error` or `value`.
   * `propagated_no_lost_error`: if no callee receives the decoder by value, a returned value never hides
     a decoder error.
-  * one obligation per regenerated decoder (`…_guarded`), closed by `decide`; for the decoders that are
-    NOT guarded on the current tree the negation is proved and a concrete failing byte string is run
-    through the model.
+  * one obligation per regenerated decoder (`…_guarded`), closed by `decide`.  All eleven decoders are guarded on
+    the current tree; the formerly unguarded ones (findings D2, D6, D14, D23, D25) were repaired in /repo and their
+    failing byte strings are kept as replay examples in `S2Proofs/C15Examples.lean`.
 -/
 import S2.DecoderIR
 import S2.Generated.DecoderIR
